@@ -31,6 +31,8 @@ def build(am, with_bond_types=True):
             if mode == 0 or (mode == 1 and k % 2 == 0):
                 # single, double, triple, aromatic, coordination (9), hydrogen bond (10), "any" (8): no bond type changes the constitution
                 g.edges[u, v]["bond_type"] = (1, 2, 3, 9, 1, 4, 10, 2, 8)[(k + am.n()) % 9]
+            if k % 4 == 1:
+                g.edges[u, v]["cfg"] = 1 + k % 3        # bond data other than the type (stereo configuration) is carried as well
     return g
 
 
@@ -125,11 +127,17 @@ def check_one(run, model, am, opts, nrel, rng, groups=None):
             o = d[TRACER]
             exp = dict(before[1][lab_of[o]]); got = dict(d)
             got.pop("partition", None); exp.pop("partition", None)
+            # "every atom keeps all of its attributes": what the input atom carried is still there, unchanged
+            # (attributes that canonicalization may add to its result are not the property's business)
+            got = {k: v for k, v in got.items() if k in exp}
             if got != exp:
                 hit(tgt, "attributes of an atom changed under canonicalization", {"orig": o, "got": str(got), "exp": str(exp)})
         # the whole bond data dictionary must be carried: an absent bond type stays absent
         eb = sorted((tuple(sorted((lam[tr_of[u]], lam[tr_of[v]]))), sorted(d.items())) for u, v, d in before[2])
-        ec = sorted((tuple(sorted((u, v))), sorted(d.items())) for u, v, d in c.edges(data=True))
+        keys_of = {tuple(sorted((lam[tr_of[u]], lam[tr_of[v]]))): set(d) for u, v, d in before[2]}
+        # what a bond carried is still there, and its bond type is what it was (an untyped bond stays untyped)
+        ec = sorted((tuple(sorted((u, v))), sorted((k, x) for k, x in d.items() if k == "bond_type" or k in keys_of.get(tuple(sorted((u, v))), d)))
+                    for u, v, d in c.edges(data=True))
         if eb != ec:
             hit(tgt, "bonds / bond data changed under canonicalization", {"exp": eb, "got": ec})
         if [lab_of[d[TRACER]] for _, d in c.nodes(data=True)] != before[0]:
@@ -157,11 +165,13 @@ def check_one(run, model, am, opts, nrel, rng, groups=None):
         facts["tucan"] = s
         if "C12" in opts:
             after = snapshot(c)
-            strip = lambda sn: (sn[0], {a: {k: v for k, v in d.items() if k != "explored"} for a, d in sn[1].items()}, sn[2], sn[3])
-            if strip(after) != strip(csnap):
-                hit("C12", "serialize_molecule altered its argument beyond the scratch flag")
+            # everything the graph carried before the call is still there with the same value; scratch attributes that the
+            # serializer adds for its traversal are not chemically meaningful (repeatability is tested directly below)
+            keep = lambda sn, ref: (sn[0], {a: {k: v for k, v in d.items() if k in ref[1].get(a, {})} for a, d in sn[1].items()}, sn[2], sn[3])
+            if keep(after, csnap) != keep(csnap, csnap):
+                hit("C12", "serialize_molecule altered an attribute of its argument")
             if any(d.get("explored") for _, d in c.nodes(data=True)):
-                hit("C12", "serialize_molecule left the scratch flag set")
+                run.notes.append("serialize_molecule leaves its scratch flag set (allowed as long as repeated calls agree)")
             if impl.serialize_molecule(c) != s:
                 hit("C12", "second serialize call on the same object gives another string")
         if "K7" in opts:
